@@ -145,7 +145,7 @@ func (rr *rulesRunner) nodeText(n ast.Node) []byte {
 	from := rr.ctx.Fset.Position(n.Pos()).Offset
 	to := rr.ctx.Fset.Position(n.End()).Offset
 	src := rr.fileBytes()
-	if (from >= 0 && from < len(src)) && (to >= 0 && to <= len(src)) {
+	if (from >= 0 && from < len(src)) && (to >= from && to <= len(src)) {
 		return src[from:to]
 	}
 
